@@ -9,17 +9,27 @@ use tower_lsp::lsp_types::Url;
 /// Save the contents of a dictionary to a file.
 /// Ensures that the path to the destination exists.
 pub async fn save_dict(path: impl AsRef<Path>, dict: impl Dictionary) -> Result<()> {
-    if let Some(parent) = path.as_ref().parent() {
+    let path = path.as_ref();
+
+    if let Some(parent) = path.parent() {
         fs::create_dir_all(parent).await?;
     }
 
-    let file = File::create(path.as_ref()).await?;
+    // Write the new contents next to the destination and move them into place afterwards.
+    // Truncating the dictionary and rewriting it in place would lose every word in it if the
+    // process died halfway through.
+    let mut temp_name = path.file_name().unwrap_or_default().to_os_string();
+    temp_name.push(".tmp");
+    let temp_path = path.with_file_name(temp_name);
+
+    let file = File::create(&temp_path).await?;
     let mut write = BufWriter::new(file);
 
     write_word_list(dict, &mut write).await?;
     write.flush().await?;
+    drop(write);
 
-    Ok(())
+    fs::rename(&temp_path, path).await
 }
 
 /// Write a dictionary somewhere.
